@@ -219,7 +219,7 @@ def gen_cases(run):
     n_rand = 300 if run.tier == 'quick' else 3000
     for _ in range(n_rand):
         k = r.randint(1, 6)
-        pool = [0.0, -1.0, 0.025, 0.05, 0.1, 0.5, 1.0, 2.0, 4.5]
+        pool = [0.0, -1.0, 1e-4, 0.008, 0.025, 0.05, 0.1, 0.5, 1.0, 2.0, 4.5]      # tiny positive temperatures are soft routing too
         cands = [r.choice(pool) for _ in range(k)]           # repeats and several hard candidates allowed
         vals = [round(r.uniform(0, 3), 2) for _ in range(3)]
         by_attr = {}
@@ -235,7 +235,8 @@ def gen_cases(run):
     metrics = [('reg', 'mse'), ('reg', 'rmse'), ('reg', 'mae'), ('class', 'brier'), ('class', 'logloss'), ('class', 'accuracy'), ('class', 'f1')]
     for i in range(n_real):
         task, metric = metrics[i % len(metrics)]
-        cands = r.choice([[0.0, 0.05, 0.5], [0.5, 0.0, 2.0, 0.1], [0.1, 1.0], [0.0, 0.025, 0.2, 1.0, 4.5], [2.0, 0.3, 0.0]])
+        cands = r.choice([[0.0, 0.05, 0.5], [0.5, 0.0, 2.0, 0.1], [0.1, 1.0], [0.0, 0.025, 0.2, 1.0, 4.5], [2.0, 0.3, 0.0]]) if i % 4 else \
+            r.choice([[0.008], [4.0, 0.008, 2.0], [0.0, 0.003, 0.3], [0.001, 0.5]])
         cases.append(dict(family='real-fits', task=task, metric=metric, cands=cands, n=r.choice([80, 120, 160]), d=r.randint(2, 4),
                           L=r.choice([20, 30, 40]), kernel=r.choice(['l2', 'l2_high_dim']), iters=r.choice([0, 1]),
                           method=r.choice(['random', 'pca', 'top_vector_agop_on_subset']), trees=r.choice([1, 1, 2]),
